@@ -257,21 +257,19 @@ func (eng *Engine) indexPackage(p *packages.Package, ps *PkgSpec) {
 		eng.units[u.Fn] = u
 		eng.checkContract(u)
 	}
-	// package-level global clauses are checked at package scope of any file
-	for _, g := range ps.Globals {
-		var pos token.Pos
-		if len(p.Syntax) > 0 {
-			pos = p.Syntax[0].End() - 1
-			for _, f := range p.Syntax {
-				if strings.HasSuffix(eng.fset.Position(f.Pos()).Filename, preludeFileName) {
-					continue
+	// package-level global clauses are checked inside the prelude file (its imports are in scope)
+	var preludePos token.Pos
+	for _, f := range p.Syntax {
+		if strings.HasSuffix(eng.fset.Position(f.Pos()).Filename, preludeFileName) {
+			for _, d := range f.Decls {
+				if fd, ok := d.(*ast.FuncDecl); ok && fd.Name.Name == "gh_old" {
+					preludePos = fd.Body.Lbrace + 1
 				}
-				pos = f.End()
-				break
 			}
 		}
-		eng.checkClause(p, g, token.NoPos, nil, false)
-		_ = pos
+	}
+	for _, g := range ps.Globals {
+		eng.checkClause(p, g, preludePos, nil, false)
 	}
 	for _, l := range ps.Lemmas {
 		di := eng.lemmaPos[l]
